@@ -172,6 +172,37 @@ CLAIMED = {
         "Lean kernel + standard axioms; translator; A-FFT, A-EXT (skimage).",
         "Lean 4 proof (partial) + exact small-shape correspondence + disk-field oracle",
         "DESIGN.md §7 C07"),
+    "C10": (
+        "Partial proof, against the UDF protocol stand-in (LiberTEM is absent): for every schedule (grouping into partitions, "
+        "order inside and between partitions) the stored result of a frame is its stand-alone per-frame result, given that a "
+        "frame's output does not depend on task data left by earlier frames - which is C09's theorem; what the UDFs pass to "
+        "the frame routines (rounded peaks + rounded zero shift, buffers, limit, crop function) is pinned to the source; "
+        "buffer count and crop back-end are irrelevant by C08 / C13. Sparse UDF: tile sums decompose exactly when every "
+        "tile sees the frame minimum; otherwise the result depends on the tiling (machine-checked counterexample = known "
+        "finding D10); mask centre lands on peak + step offset; zero_shift rejected (source pinned).",
+        "Lean kernel + standard axioms; translator; A-LT (protocol stand-in), A-FFT/A-FLOAT; D10 is a known finding.",
+        "Lean 4 proof (induction over schedules, reduction to C08/C09/C13) + protocol-runner oracle",
+        "DESIGN.md §7 C10"),
+    "C11": (
+        "Partial proof, against the UDF protocol stand-in: per-frame refinement results are independent of the partitioning "
+        "(instance of the C10 schedule theorem); the zero shift of a frame is none / the constant vector / the frame's AUX "
+        "value (repair of D11, source pinned); run_refine accepts exactly fast/sparse/fullframe x fast/affine (generated "
+        "dispatch tables) and selects the lattice positions with margin pattern.search (C17); the integration value equals "
+        "the sum of the frame over the mask centred on the peak with zero outside (C13). Matcher numerics inherit C05's "
+        "residual.",
+        "Lean kernel + standard axioms; translator; A-LT; matcher numerics (C05 residual).",
+        "Lean 4 proof (partial) + protocol-runner oracle comparing with the matcher per frame",
+        "DESIGN.md §7 C11"),
+    "C12": (
+        "Partial proof of the control skeleton of full_match for any oracle of the best-match search and any number of "
+        "iterations: weak set = complement of the weight filter; every non-weak non-zero peak is unmatched or in exactly one "
+        "match, never both; weak non-zero peaks are in neither; the zero point is not reported unmatched once a match "
+        "exists; progress measure of a matching step; post-conditions of returned matches from the final check after the "
+        "final weighted optimise (source pinned) with C06. NOT proved: completeness of the first match on noise-free "
+        "lattices (figure of merit, float geometry) - oracle only. hdbscan replaced by a deterministic stand-in.",
+        "Lean kernel + standard axioms; translator; A-CL (clusterer stand-in); oracle answers are recorded from the real run.",
+        "Lean 4 proof (loop invariant by induction over recorded oracle answers) + replay correspondence + cloud oracle",
+        "DESIGN.md §7 C12"),
 }
 
 NOT_YET = {}
